@@ -1,4 +1,4 @@
-//@unit U19 props=C04,C05,C10,C13,C17,C18,C19 rlimit=100 NetcodeServer::{new, handle_connection_request, find_or_add_connect_token_entry, process_packet_internal, process_packet, generate_payload_packet, update_client, disconnect} (renetcode/src/server.rs)
+//@unit U19 props=C04,C05,C10,C13,C17,C18,C19 rlimit=100 NetcodeServer::{new, handle_connection_request, find_or_add_connect_token_entry, process_packet_internal, process_packet, generate_payload_packet, update_client, disconnect, update, set_max_clients, client_addr, user_data, is_client_connected} (renetcode/src/server.rs)
 #![feature(allocator_api)]
 #![allow(unused_imports, dead_code, unused_variables, unused_mut)]
 use vstd::prelude::*;
@@ -259,6 +259,13 @@ impl ReplayProtection {
             r matches Some(c) ==> exists|i: int| 0 <= i < old(clients)@.len() && #[trigger] old(clients)@[i] == Some(*c) && c.client_id == client_id
                 && final(clients)@ == old(clients)@.update(i, Some(*final(c))),
 //@endfn
+//@stub renetcode/src/server.rs ::find_client_by_id
+//@ret r
+//@spec
+        ensures
+            r is Some <==> id_connected(clients@, client_id),
+            r matches Some(c) ==> c.client_id == client_id && exists|i: int| 0 <= i < clients@.len() && #[trigger] clients@[i] == Some(*c),
+//@endfn
 //@stub renetcode/src/server.rs ::find_client_slot_by_id
 //@ret r
 //@spec
@@ -288,7 +295,60 @@ pub fn first_free_slot_unverified(clients: &Box<[Option<Connection>]>) -> (r: Op
 //@ret r
 //@endfn
 
+/// effect of the body of the first loop of NetcodeServer::update on one half-open session at clock `now`
+pub open spec fn expiry_marked(pre: Connection, post: Connection, now: Duration) -> bool {
+    &&& post == (Connection { state: post.state, ..pre })
+    &&& (now.nanos / 1_000_000_000 > pre.expire_timestamp ==> post.state is Disconnected)
+    &&& (now.nanos / 1_000_000_000 <= pre.expire_timestamp ==> post.state == pre.state)
+}
+
+// the loop body, outlined (rule D6) and proved here
+//@outline renetcode/src/server.rs NetcodeServer::update loop=1 name=update_pending_loop_body
+//@params client: &mut Connection
+//@capture val current_time: Duration = self.current_time
+//@spec
+    requires current_time.nanos / 1_000_000_000 <= u64::MAX,
+    ensures expiry_marked(*old(client), *final(client), current_time),       // @C18 update.half_open_session_marked_exactly_when_its_token_expired
+//@endfn
+
+/// rule D18 -- ASSUMED: `for client in self.pending_clients.values_mut() { BODY }` as a whole: BODY (proved above) applied to every value once
+#[verifier::external_body]
+pub fn update_pending_summary(pending: &mut HashMap<SocketAddr, Connection>, current_time: Duration)
+    requires current_time.nanos / 1_000_000_000 <= u64::MAX,
+    ensures
+        final(pending)@.dom() == old(pending)@.dom(),
+        forall|a: SocketAddr| #[trigger] old(pending)@.contains_key(a) ==> expiry_marked(old(pending)@[a], final(pending)@[a], current_time),
+{ unimplemented!() }
+
+/// rule D19 -- ASSUMED: `self.pending_clients.retain(|_, c| c.state != ConnectionState::Disconnected)` (std: keeps exactly the entries for which the closure holds)
+#[verifier::external_body]
+pub fn retain_not_disconnected_unverified(pending: &mut HashMap<SocketAddr, Connection>)
+    ensures
+        forall|a: SocketAddr| #[trigger] final(pending)@.contains_key(a) <==> old(pending)@.contains_key(a) && !(old(pending)@[a].state is Disconnected),
+        forall|a: SocketAddr| #[trigger] final(pending)@.contains_key(a) ==> final(pending)@[a] == old(pending)@[a],
+{ unimplemented!() }
+
 impl NetcodeServer {
+//@fn renetcode/src/server.rs NetcodeServer::update
+//@summarize 1 => update_pending_summary(&mut self.pending_clients, self.current_time);
+//@cut /self\.pending_clients\.retain\(/ .. /self\.pending_clients\.retain\(/ => retain_not_disconnected_unverified(&mut self.pending_clients);
+//@spec
+        requires
+            old(self).server_wf(),
+            old(self).current_time.nanos + duration.nanos <= 0xFFFF_FFFF_FFFF_FFFF * 1_000_000_000,     // history assumption: the clock stays representable
+        ensures
+            final(self).server_wf(),                                                                                          // @C10 update.server_invariant_kept
+            final(self).current_time.nanos == old(self).current_time.nanos + duration.nanos,                                  // @C18 update.clock_advances_by_the_tick
+            final(self).clients@ == old(self).clients@,                                                                       // @C10 update.connected_clients_untouched
+            // C18: a half-open session is dropped exactly when its connect token has expired (or it was already marked disconnected); the others stay as they were
+            forall|a: SocketAddr| #[trigger] final(self).pending_clients@.contains_key(a) ==> old(self).pending_clients@.contains_key(a)
+                && final(self).pending_clients@[a] == old(self).pending_clients@[a]
+                && final(self).current_time.nanos / 1_000_000_000 <= old(self).pending_clients@[a].expire_timestamp,           // @C18 update.surviving_half_open_sessions_are_unexpired_and_unchanged
+            forall|a: SocketAddr| #[trigger] old(self).pending_clients@.contains_key(a) && !(old(self).pending_clients@[a].state is Disconnected)
+                && final(self).current_time.nanos / 1_000_000_000 <= old(self).pending_clients@[a].expire_timestamp
+                ==> final(self).pending_clients@.contains_key(a),                                                              // @C18 update.unexpired_half_open_sessions_are_kept
+//@endfn
+
 //@fn renetcode/src/server.rs NetcodeServer::new
 //@ret r
 //@spec
@@ -341,6 +401,42 @@ impl NetcodeServer {
 //@closure 1 -> (c: Connection) ensures c.addr == addr && c.sequence == 0 && c.client_id == connect_token.client_id
 //@cut /let in_host_list = connect_token$/ .. /\.any\(\|addr\| self\.public_addresses\.contains\(&addr\)\);/ => let in_host_list = host_in_list_unverified(&connect_token.server_addresses, &self.public_addresses);
 //@cut /if self\.clients\.iter\(\)\.flatten\(\)\.count\(\) >= self\.max_clients \{/ .. /if self\.clients\.iter\(\)\.flatten\(\)\.count\(\) >= self\.max_clients \{/ => if connected_count_unverified(&self.clients) >= self.max_clients {
+//@endfn
+
+//@fn renetcode/src/server.rs NetcodeServer::user_data
+//@ret r
+//@spec
+        requires self.server_wf(),
+        ensures
+            r is Some <==> id_connected(self.clients@, client_id),                                                             // @C10 user_data.some_iff_connected
+            // with pairwise distinct ids there is one session under that id: the answer is that session's user data
+            r matches Some(ud) ==> forall|i: int| 0 <= i < self.clients@.len() && (#[trigger] self.clients@[i] matches Some(c) && c.client_id == client_id)
+                ==> self.clients@[i]->Some_0.user_data == ud,                                                                  // @C10 user_data.of_the_session_registered_under_that_id
+//@endfn
+
+//@fn renetcode/src/server.rs NetcodeServer::client_addr
+//@ret r
+//@spec
+        requires self.server_wf(),
+        ensures
+            r is Some <==> id_connected(self.clients@, client_id),                                                             // @C10 client_addr.some_iff_connected
+            r matches Some(a) ==> forall|i: int| 0 <= i < self.clients@.len() && (#[trigger] self.clients@[i] matches Some(c) && c.client_id == client_id)
+                ==> self.clients@[i]->Some_0.addr == a,                                                                        // @C10 client_addr.of_the_session_registered_under_that_id
+//@endfn
+
+//@fn renetcode/src/server.rs NetcodeServer::is_client_connected
+//@ret r
+//@spec
+        ensures r == id_connected(self.clients@, client_id),                                                                   // @C10 is_client_connected.exact
+//@endfn
+
+//@fn renetcode/src/server.rs NetcodeServer::set_max_clients
+//@spec
+        requires old(self).server_wf(),
+        ensures
+            final(self).server_wf(),                                                                                           // @C10 set_max_clients.invariant_kept
+            *final(self) == (NetcodeServer { max_clients: final(self).max_clients, ..*old(self) }),                            // @C10 set_max_clients.only_the_limit_changes
+            final(self).max_clients <= 1024 && final(self).max_clients <= max_clients,                                         // @C10 set_max_clients.capped
 //@endfn
 
 //@fn renetcode/src/server.rs NetcodeServer::process_packet
